@@ -33,8 +33,11 @@ def gen_rows(ctx, n_sim):
     common.require_tlc_ok(ctx, inv, "GenMod / ResolvesRight / PubExactly / PositiveLinks (every placement of the data universe)")
     sim = common.tlc(ctx, "GenMod", cfg="GenMod_sim", workers=1, timeout=1500, simulate=n_sim, depth=12)
     common.require_tlc_ok(ctx, sim, "GenMod simulation / NegativeBreaks")
+    # aliased imports (`from m import f as f_x`): the data universe in the flat layout (the region that works today)
+    ali = common.tlc(ctx, "GenMod", cfg="GenMod_alias", workers=1, timeout=900, simulate=max(n_sim // 5, 20), depth=12)
+    common.require_tlc_ok(ctx, ali, "GenMod simulation (aliased imports)")
     seen, rows = set(), []
-    for r in sim["cases"]["CASE"]:
+    for r in sim["cases"]["CASE"] + ali["cases"]["CASE"]:
         k = json.dumps(r, sort_keys=True)
         if k not in seen:
             seen.add(k)
